@@ -12,11 +12,14 @@ def main():
     checks = []
     claimed = set()
     frag_dir = os.path.join(ROOT, "manifest")
+    approved = set(json.load(open(os.path.join(frag_dir, "_approved.json"))))
     for fn in sorted(os.listdir(frag_dir)):
         if not fn.endswith(".json") or fn.startswith("_"):
             continue
         fr = json.load(open(os.path.join(frag_dir, fn)))
         pid = fr["property_id"]
+        if pid not in approved:
+            continue
         claimed.add(pid)
         checks.append({
             "property_id": pid,
